@@ -51,7 +51,9 @@ def eval_case(case):
     L = case['lists']           # kex, key, enc_c2s, enc_s2c, mac_c2s, mac_s2c, comp_c2s, comp_s2c
     role, opts = case['role'], case['opts']
     B = lambda l: [fakenet.j2b(x) for x in l]
-    payload = wire.kexinit(B(L[0]), B(L[1]), B(L[3]), B(L[5]), B(L[7]), enc_c=B(L[2]), mac_c=B(L[4]), comp_c=B(L[6]))
+    tail = case.get('tail') or {}      # the fields of the message that carry no algorithm names
+    payload = wire.kexinit(B(L[0]), B(L[1]), B(L[3]), B(L[5]), B(L[7]), enc_c=B(L[2]), mac_c=B(L[4]), comp_c=B(L[6]), lang=B(tail.get('lang', [''])), lang_c=B(tail.get('lang_c', tail.get('lang', ['']))),
+                           follows=bool(tail.get('follows')), reserved=tail.get('reserved', 0), cookie=fakenet.j2b(tail.get('cookie', '\x00' * 16)))
     spec = {'kexinit_raw': fakenet.b2j(payload), 'banner': case.get('banner', 'SSH-2.0-OpenSSH_8.9p1 Ubuntu-3')}
     if case.get('pad') is not None:
         # any padding length 4..255 that keeps the packet a multiple of 8 is legal (RFC 4253 section 6)
@@ -191,7 +193,7 @@ def eval_ssh1(case):
 
 def strat_kexinit():
     def build(t):
-        kex, key, enc, mac, enc2, mac2, comp, comp2, asym, role, opts, probes, longname = t
+        kex, key, enc, mac, enc2, mac2, comp, comp2, asym, role, opts, probes, longname, tail = t
         if longname is not None:
             kex = kex + [longname]
         lists = [kex, key, enc2 if asym else enc, enc, mac2 if asym else mac, mac, comp2 if asym else comp, comp]
@@ -207,11 +209,15 @@ def strat_kexinit():
             if which == 5 and not asym:
                 lists[4] = lists[5]
         # an empty list is advertised as the empty string
+        if tail is not None:
+            extra['tail'] = tail
         return dict({'proto': 2, 'role': role, 'opts': opts, 'probes': probes and role == 'server', 'lists': lists}, **extra)
+    tails = st.sampled_from([{'follows': True}, {'reserved': 0xffffffff}, {'reserved': 1, 'follows': True}, {'lang': ['en-US']}, {'lang': ['en-US', 'de-DE'], 'lang_c': ['fr']}, {'lang': ['aes128-cbc', 'hmac-md5']},
+                             {'cookie': '\xff' * 16}, {'cookie': 'SSH-2.0-cookie\r\n', 'follows': True, 'reserved': 0x80000000, 'lang': ['x' * 300]}])
     comp = st.lists(st.sampled_from(['none', 'zlib', 'zlib@openssh.com']), min_size=1, max_size=3, unique=True)
     return st.tuples(gens.namelist('kex'), gens.namelist('key'), gens.namelist('enc'), gens.namelist('mac'), gens.namelist('enc'), gens.namelist('mac'), comp, comp,
                      st.sampled_from([False, False, False, False, True]), st.sampled_from(['server', 'server', 'client']), st.sampled_from(RENDERINGS), st.sampled_from([False, False, True]),
-                     st.one_of(st.none(), st.none(), st.none(), st.none(), st.none(), st.none(), st.none(), st.none(), gens.long_name())).map(build)
+                     st.one_of(st.none(), st.none(), st.none(), st.none(), st.none(), st.none(), st.none(), st.none(), gens.long_name()), st.one_of(st.none(), st.none(), st.none(), tails)).map(build)
 
 
 def strat_probe_lists():
